@@ -14,17 +14,17 @@ type V struct {
 	IsL  bool
 }
 
-func A(a string) V          { return V{Atom: a} }
-func I(i int) V             { return V{Atom: strconv.Itoa(i)} }
+func A(a string) V { return V{Atom: a} }
+func I(i int) V    { return V{Atom: strconv.Itoa(i)} }
 func B(b bool) V {
 	if b {
 		return V{Atom: "1"}
 	}
 	return V{Atom: "0"}
 }
-func S(s string) V          { return V{Str: &s} }
-func L(items ...V) V        { return V{List: items, IsL: true} }
-func (v V) IsAtom() bool    { return !v.IsL && v.Str == nil }
+func S(s string) V       { return V{Str: &s} }
+func L(items ...V) V     { return V{List: items, IsL: true} }
+func (v V) IsAtom() bool { return !v.IsL && v.Str == nil }
 func (v V) Text() string {
 	if v.Str != nil {
 		return *v.Str
